@@ -17,6 +17,8 @@ import time
 
 ENV = dict(os.environ, GOFLAGS="-mod=mod", GOPROXY="off", GOSUMDB="off", GOTOOLCHAIN="local")
 VERIF = "/verif"
+# the checks are run from here: a snapshot of /verif (SEEDTEST_CHECKS) lets the live tree be edited while a long recheck runs
+CHK = os.environ.get("SEEDTEST_CHECKS", VERIF)
 
 
 def sh(cmd, cwd=None, timeout=1800, env=None):
@@ -116,7 +118,7 @@ def main():
                 rec["checks"] = {}
                 for chk in [prop] + extra_checks.get(prop, []):
                     t0 = time.time()
-                    rc, out = sh("./check %s --tier quick" % chk, cwd=VERIF, timeout=2400, env=dict(ENV, VERIF_REPO=wt))
+                    rc, out = sh("./check %s --tier quick" % chk, cwd=CHK, timeout=2400, env=dict(ENV, VERIF_REPO=wt))
                     lines = [l for l in out.splitlines() if l.startswith(("VIOLATION", "OK ", "UNDECIDED", "KNOWN-FINDING"))]
                     first_v = None
                     for l in lines:
@@ -131,7 +133,7 @@ def main():
                     rec["checks"][chk] = dict(exit=rc, wall_s=round(time.time() - t0, 1), violations=sum(1 for l in lines if l.startswith("VIOLATION")),
                                               first_violation=first_v, undecided=[l[:300] for l in lines if l.startswith("UNDECIDED")])
                     rec["ran"].append("VERIF_REPO=<changed tree> ./check %s --tier quick: exit %d" % (chk, rc))
-                    shutil.rmtree(os.path.join(VERIF, "replays", chk), ignore_errors=True)
+                    shutil.rmtree(os.path.join(CHK, "replays", chk), ignore_errors=True)
                 rec["detected_by"] = [c for c, v in rec["checks"].items() if v["exit"] == 1]
                 if confirmed:
                     dst = os.path.join(VERIF, "seeded", name)
@@ -158,7 +160,7 @@ def run_checks(wt, checks):
     out = {}
     for chk in checks:
         t0 = time.time()
-        rc, o = sh("./check %s --tier quick" % chk, cwd=VERIF, timeout=3000, env=dict(ENV, VERIF_REPO=wt))
+        rc, o = sh("./check %s --tier quick" % chk, cwd=CHK, timeout=3000, env=dict(ENV, VERIF_REPO=wt))
         lines = [l for l in o.splitlines() if l.startswith(("VIOLATION", "OK ", "UNDECIDED", "KNOWN-FINDING"))]
         first_v = None
         for l in lines:
@@ -171,7 +173,7 @@ def run_checks(wt, checks):
                 break
         out[chk] = dict(exit=rc, wall_s=round(time.time() - t0, 1), violations=sum(1 for l in lines if l.startswith("VIOLATION")),
                         first_violation=first_v, undecided=[l[:300] for l in lines if l.startswith("UNDECIDED")])
-        shutil.rmtree(os.path.join(VERIF, "replays", chk), ignore_errors=True)
+        shutil.rmtree(os.path.join(CHK, "replays", chk), ignore_errors=True)
     return out
 
 
